@@ -553,3 +553,9 @@ def build(ctx):
     if ctx.tier == "thorough":
         obs.append(lean_obligation(ctx, ['pyvc_chord_between', 'pyvc_am_hm', 'pyvc_monotone_sequence']))
     return obs
+
+
+def bounded(ctx):
+    """pandas containers (label alignment) are outside the array model of the executor: bounded family 'container independence'"""
+    from ..rt import containers
+    return containers.run(['flowproperties'])
